@@ -184,6 +184,29 @@ func VerifC13_CrashDuringCommit() {
 		ci, _ := getCommitInfo(w.db, 3)
 		zz.Assert("C13.crash.new-version-hash-equals-uninterrupted-run", bytes.Equal(ci.CommitID().Hash, want.Hash))
 	}
+	// the restarted process loads `latest` in every substore and re-executes the interrupted block: same hash as the
+	// uninterrupted run, no panic (a substore that had already saved / pruned for version 3 must tolerate the repetition)
+	if loadable && latest == 2 {
+		for _, t := range w.trees {
+			t.LoadVersion(2)
+		}
+		w.rs.lastCommitID = types.CommitID{Version: 2}
+		w.write(3)
+		var id types.CommitID
+		replayPanicked := false
+		func() {
+			defer func() {
+				if r := recover(); r != nil {
+					replayPanicked = true
+				}
+			}()
+			id = w.rs.Commit()
+		}()
+		zz.Assert("C13.crash.re-executed-block-does-not-panic", !replayPanicked)
+		if !replayPanicked {
+			zz.Assert("C13.crash.re-executed-block-same-hash", id.Version == 3 && bytes.Equal(id.Hash, want.Hash))
+		}
+	}
 	zz.Reach("C13.crash")
 }
 
@@ -196,6 +219,9 @@ func VerifC14_Query() {
 		w.write(v)
 		if v == 3 {
 			w.rs.GetKVStore(w.keys[0]).Delete([]byte("k")) // absent at version 3
+		}
+		if v == 2 {
+			w.rs.GetKVStore(w.keys[0]).Set([]byte("k"), []byte{}) // present with an empty value at version 2
 		}
 		w.rs.Commit()
 	}
@@ -219,11 +245,20 @@ func VerifC14_Query() {
 		if answered != 3 {
 			want = []byte{0, byte(answered)}
 		}
-		zz.Assert("C14.query.value-committed-at-that-height", bytes.Equal(res.Value, want) && (res.Value == nil) == (want == nil))
+		if answered == 2 {
+			want = []byte{}
+		}
+		zz.Assert("C14.query.value-committed-at-that-height", bytes.Equal(res.Value, want) && (prove || (res.Value == nil) == (want == nil)))
 		if prove {
 			ci, err := getCommitInfo(w.db, answered)
 			zz.Assert("C14.query.proof-has-store-op-and-multistore-op", err == nil && res.Proof != nil && len(res.Proof.Ops) == 2)
 			if res.Proof != nil && len(res.Proof.Ops) == 2 {
+				// existence proof for a key that exists at that height (even with an empty value), absence proof otherwise
+				wantType := "iavl:v"
+				if answered == 3 {
+					wantType = "iavl:a"
+				}
+				zz.Assert("C14.query.existence-vs-absence-proof", res.Proof.Ops[0].Type == wantType)
 				wantOp := NewMultiStoreProofOp([]byte("alpha"), NewMultiStoreProof(ci.StoreInfos)).ProofOp()
 				zz.Assert("C14.query.multistore-op-built-from-commit-info-of-that-height", bytes.Equal(res.Proof.Ops[1].Data, wantOp.Data) && bytes.Equal(res.Proof.Ops[1].Key, []byte("alpha")))
 			}
@@ -232,4 +267,20 @@ func VerifC14_Query() {
 		zz.Assert("C14.query.pruned-or-future-height-returns-nothing", res.Value == nil && (res.Proof == nil || len(res.Proof.Ops) == 0))
 	}
 	zz.Reach("C14.query")
+}
+
+// VerifC01_TransientWiped: restart-equivalence slice of C01: a process that is stopped after a Commit and reopened starts
+// with empty transient stores, so a running instance must hold nothing in them after Commit either - whatever was written
+// during the block and whatever the pruning options are.
+func VerifC01_TransientWiped() {
+	w := vNewWorld(1+zz.Choice("stores", 2), vPruning())
+	for v := int64(1); v <= 2; v++ {
+		w.write(v)
+		w.rs.GetKVStore(w.tkey).Set(zz.Bytes("tk", 1), []byte{byte(v)})
+		w.rs.Commit()
+		it := w.rs.GetKVStore(w.tkey).Iterator(nil, nil)
+		zz.Assert("C01.restart.transient-state-does-not-survive-commit", !it.Valid())
+		it.Close()
+	}
+	zz.Reach("C01.transient")
 }
